@@ -30,13 +30,17 @@ pub use iter_ext_ax::*;
 // renamed to `.vp_filter_map(`; the external body IS the call to the real method (driven to the end, which
 // is what the `.collect()` that follows in the source does).  Assumed contract (trusted base A3): the closure
 // is called once on every element, in order; the results that are `Some` are yielded, in order.
-pub uninterp spec fn vp_fm_out<T, B, F>(s: Seq<T>, f: F, r: Seq<B>) -> Seq<Option<B>>;
 pub open spec fn somes<B>(o: Seq<Option<B>>) -> Seq<B>
     decreases o.len()
 {
     if o.len() == 0 { Seq::empty() } else {
         match o.last() { Some(b) => somes(o.drop_last()).push(b), None => somes(o.drop_last()) }
     }
+}
+/// `o` = the closure's results, one per input element
+pub open spec fn vp_fm_post<T, B, F: FnMut(T) -> Option<B>>(s: Seq<T>, f: F, r: Seq<B>) -> bool {
+    exists|o: Seq<Option<B>>| #![trigger somes(o)]
+        o.len() == s.len() && (forall|j: int| 0 <= j < s.len() ==> call_ensures(f, (s[j],), #[trigger] o[j])) && r == somes(o)
 }
 pub trait VpVecIntoIter<T>: Sized {
     fn vp_filter_map<B, F: FnMut(T) -> Option<B>>(self, f: F) -> (r: std::vec::IntoIter<B>)
@@ -47,13 +51,7 @@ impl<T> VpVecIntoIter<T> for std::vec::IntoIter<T> {
     fn vp_filter_map<B, F: FnMut(T) -> Option<B>>(self, f: F) -> (r: std::vec::IntoIter<B>)
         ensures
             r.obeys_prophetic_iter_laws(), r.decrease() is Some,
-            ({
-                let s = self.remaining();
-                let o = vp_fm_out(s, f, r.remaining());
-                &&& o.len() == s.len()
-                &&& forall|j: int| 0 <= j < s.len() ==> call_ensures(f, (s[j],), #[trigger] o[j])
-                &&& r.remaining() == somes(o)
-            }),
+            vp_fm_post(self.remaining(), f, r.remaining()),
     { self.filter_map(f).collect::<Vec<B>>().into_iter() }
 }
 
